@@ -550,8 +550,8 @@ theorem uData_ge (s : Bytes) : uP1 s + uW1 s ≤ (uData s).1 := by
     simp [this]
 
 /-- the terminator token at the start of `r` is the same when more bytes follow, unless `r` is a lone CR
-(which a following LF would extend) -/
-theorem newline_stable (r y : Bytes) (hne : r ≠ []) (hend : r ≠ [13]) :
+and a line feed follows (which extends it to CR LF) -/
+theorem newline_stable (r y : Bytes) (hne : r ≠ []) (hend : r ≠ [13] ∨ y.head? ≠ some 10) :
     specToken .nl (r ++ y) = specToken .nl r := by
   cases r with
   | nil => exact absurd rfl hne
@@ -562,7 +562,16 @@ theorem newline_stable (r y : Bytes) (hne : r ≠ []) (hend : r ≠ [13]) :
     · by_cases hc : b = 13
       · subst hc
         cases t with
-        | nil => exact absurd rfl hend
+        | nil =>
+          cases y with
+          | nil => rfl
+          | cons b' y' =>
+            have hb' : b' ≠ 10 := by
+              rcases hend with h | h
+              · exact absurd rfl h
+              · simpa using h
+            simp only [specToken, List.cons_append, List.nil_append, newline_cr _ _ hb']
+            rw [show newline.longest [13] = some 1 by decide]
         | cons b' t' =>
           by_cases hb' : b' = 10
           · subst hb'
@@ -583,32 +592,36 @@ theorem nl_consumed_pos {s : Bytes} {e : Expect} (h : specToken .nl s = some e) 
     · cases h; assumption
     · cases h
 
-/-- a unit that ends — in a terminator or at a byte that cannot continue it — at or before a line
-feed of `w` is the same unit when more bytes follow -/
-theorem specUnit_stable (w y : Bytes) (J : Nat) (hJ : NLat w J) (hq : NoQuotes (w ++ y)) (hlast : w.getLast? ≠ some 13)
-    (hend : (specUnit w).consumed ≤ J + 1)
-    (hterm : (specUnit w).term ≠ .none ∨ (specUnit w).wellFormed = false) : specUnit (w ++ y) = specUnit w := by
-  have hP2 : (uData w).1 ≤ J := by
-    rw [specUnit_eq] at hend hterm
+/-- where the terminator of a terminated (or invalid) unit starts -/
+theorem unit_P2_le (w : Bytes) (J : Nat) (hend : (specUnit w).consumed ≤ J + 1)
+    (hterm : (specUnit w).term ≠ .none ∨ (specUnit w).wellFormed = false) : (uData w).1 ≤ J := by
+  rw [specUnit_eq] at hend hterm
+  split at hend
+  · rename_i e he
+    have := nl_consumed_pos he
+    dsimp only at hend
+    omega
+  · rename_i he
+    rw [he] at hterm
+    dsimp only at hend hterm
     split at hend
-    · rename_i e he
-      have := nl_consumed_pos he
-      dsimp only at hend
-      omega
-    · rename_i he
-      rw [he] at hterm
-      dsimp only at hend hterm
+    · dsimp only at hend; omega
+    · rename_i h59
+      rw [if_neg h59] at hterm
       split at hend
+      · rename_i hemp
+        rw [if_pos hemp] at hterm
+        rcases hterm with h | h
+        · exact absurd rfl h
+        · cases h
       · dsimp only at hend; omega
-      · rename_i h59
-        rw [if_neg h59] at hterm
-        split at hend
-        · rename_i hemp
-          rw [if_pos hemp] at hterm
-          rcases hterm with h | h
-          · exact absurd rfl h
-          · cases h
-        · dsimp only at hend; omega
+
+/-- header, blanks and data list of a unit whose terminator starts at or before a line terminator of `w`
+are the same when more bytes follow -/
+theorem unit_parts_stable (w y : Bytes) (J : Nat) (hJ : NLat w J) (hq : NoQuotes (w ++ y)) (hP2 : (uData w).1 ≤ J) :
+    wsLen (w ++ y) = wsLen w ∧ uHdr (w ++ y) = uHdr w ∧ uP1 (w ++ y) = uP1 w ∧ uW1 (w ++ y) = uW1 w ∧
+    uData (w ++ y) = uData w ∧
+    (uW1 w > 0 → specList ((w ++ y).length + 1) (w ++ y) (uP1 w + uW1 w) 0 = specList (w.length + 1) w (uP1 w + uW1 w) 0) := by
   have hge := uData_ge w
   have hP1 : uP1 w ≤ J := by omega
   have hW0 : wsLen w ≤ J := by unfold uP1 at hP1; omega
@@ -621,27 +634,36 @@ theorem specUnit_stable (w y : Bytes) (J : Nat) (hJ : NLat w J) (hq : NoQuotes (
   obtain ⟨v3, v4⟩ := drop_view w y J (uP1 w) hJ hP1
   have eW : uW1 (w ++ y) = uW1 w := by
     unfold uW1; rw [eP, v3, wsLen_stable _ y _ v4]
+  have eL : uW1 w > 0 → specList ((w ++ y).length + 1) (w ++ y) (uP1 w + uW1 w) 0 = specList (w.length + 1) w (uP1 w + uW1 w) 0 := by
+    intro hw
+    have hl := hJ.lt
+    have hf : specList ((w ++ y).length + 1) w (uP1 w + uW1 w) 0 = specList (w.length + 1) w (uP1 w + uW1 w) 0 :=
+      specList_fuel _ _ w _ 0 (uW1_le w) (by rw [List.length_append]; omega) (by omega)
+    have hE : endpos (specList (w.length + 1) w (uP1 w + uW1 w) 0) = (uData w).1 := by
+      unfold uData; rw [if_pos hw]
+      cases specList (w.length + 1) w (uP1 w + uW1 w) 0 <;> rfl
+    rw [specList_stable w y J hJ hq _ _ 0 (by omega) (by rw [hf, hE]; exact hP2), hf]
   have eD : uData (w ++ y) = uData w := by
     unfold uData
     rw [eW, eP]
     split
     · rename_i hw
-      have hl := hJ.lt
-      have hf : specList ((w ++ y).length + 1) w (uP1 w + uW1 w) 0 = specList (w.length + 1) w (uP1 w + uW1 w) 0 :=
-        specList_fuel _ _ w _ 0 (uW1_le w) (by rw [List.length_append]; omega) (by omega)
-      have hE : endpos (specList (w.length + 1) w (uP1 w + uW1 w) 0) = (uData w).1 := by
-        unfold uData; rw [if_pos hw]
-        cases specList (w.length + 1) w (uP1 w + uW1 w) 0 <;> rfl
-      rw [specList_stable w y J hJ hq _ _ 0 (by omega) (by rw [hf, hE]; exact hP2), hf]
+      rw [eL hw]
     · rfl
+  exact ⟨e0, eH, eP, eW, eD, eL⟩
+
+/-- a unit that ends — in a terminator or at a byte that cannot continue it — at or before a line
+terminator of `w` is the same unit when more bytes follow, unless its terminator is a CR at the very end of
+`w` and the next byte is a line feed -/
+theorem specUnit_stable (w y : Bytes) (J : Nat) (hJ : NLat w J) (hq : NoQuotes (w ++ y))
+    (hx : w.drop (uData w).1 ≠ [13] ∨ y.head? ≠ some 10)
+    (hend : (specUnit w).consumed ≤ J + 1)
+    (hterm : (specUnit w).term ≠ .none ∨ (specUnit w).wellFormed = false) : specUnit (w ++ y) = specUnit w := by
+  have hP2 := unit_P2_le w J hend hterm
+  obtain ⟨e0, eH, _, _, eD, _⟩ := unit_parts_stable w y J hJ hq hP2
   obtain ⟨v5, v6⟩ := drop_view w y J (uData w).1 hJ hP2
   have hne := v6.ne_nil
-  have h13 : w.drop (uData w).1 ≠ [13] := by
-    intro h
-    apply hlast
-    rw [← List.take_append_drop (uData w).1 w, h]
-    simp
-  rw [specUnit_eq (w ++ y), specUnit_eq w, e0, eH, eD, v5, newline_stable _ y hne h13, head_append_of_ne _ y hne]
+  rw [specUnit_eq (w ++ y), specUnit_eq w, e0, eH, eD, v5, newline_stable _ y hne hx, head_append_of_ne _ y hne]
   have i1 : (w.drop (uData w).1 ++ y).isEmpty = false := by
     cases hh : w.drop (uData w).1 with
     | nil => exact absurd hh hne
@@ -652,12 +674,58 @@ theorem specUnit_stable (w y : Bytes) (J : Nat) (hJ : NLat w J) (hq : NoQuotes (
     | cons a t => rfl
   rw [i1, i2]
 
+/-- the exception: a unit terminated by a CR at the very end of `w`, followed by a line feed — the terminator
+becomes CR LF, nothing else changes -/
+theorem specUnit_crlf (w y : Bytes) (hq : NoQuotes (w ++ 10 :: y)) (hr : w.drop (uData w).1 = [13]) :
+    specUnit (w ++ 10 :: y) = { specUnit w with consumed := (specUnit w).consumed + 1 } ∧
+    (specUnit w).term = .nl ∧ (specUnit w).consumed = w.length ∧ (uData w).1 + 1 = w.length := by
+  have hlen : (uData w).1 + 1 = w.length := by
+    have := congrArg List.length hr
+    rw [List.length_drop] at this
+    simp at this
+    omega
+  have hJ : NLat w (uData w).1 := by
+    right
+    have := congrArg (fun l => l[0]?) hr
+    simp only [List.getElem?_drop, Nat.add_zero, List.getElem?_cons_zero] at this
+    exact this
+  obtain ⟨e0, eH, _, _, eD, _⟩ := unit_parts_stable w (10 :: y) _ hJ hq (Nat.le_refl _)
+  have v5 : (w ++ 10 :: y).drop (uData w).1 = 13 :: 10 :: y := by
+    rw [List.drop_append_of_le_length (by omega), hr]; rfl
+  have n1 : specToken .nl (13 :: 10 :: y) = some ⟨2, .nl, 0, 2⟩ := by
+    simp only [specToken, newline_crlf]; rfl
+  have n2 : specToken .nl [13] = some ⟨1, .nl, 0, 1⟩ := by decide
+  rw [specUnit_eq (w ++ 10 :: y), specUnit_eq w, e0, eH, eD, v5, hr, n1, n2]
+  exact ⟨rfl, rfl, by dsimp only; omega, hlen⟩
+
 /-! ## the scan -/
 
 theorem term_of_code {t : Termination} {e : TermSpec}
     (h : t.code = match e with | .none => 0 | .nl => 1 | .semicolon => 2) :
     (t = .nl ↔ e = .nl) ∧ (t = .none ↔ e = .none) := by
   cases t <;> cases e <;> simp [Termination.code] at h ⊢
+
+/-- term and "no header" of a detected unit, from three fields of its specification -/
+theorem key_of_fields {a b : Bytes} (ht : (specUnit a).term = (specUnit b).term)
+    (hw : (specUnit a).wellFormed = (specUnit b).wellFormed) (hh : (specUnit a).headerType = (specUnit b).headerType) :
+    (detectUnit a).term = (detectUnit b).term ∧
+    ((detectUnit a).header.type == .unknown) = ((detectUnit b).header.type == .unknown) := by
+  obtain ⟨a1, a2, a3, a4, _, _⟩ := Props.C13.unit_spec a
+  obtain ⟨b1, b2, b3, b4, _, _⟩ := Props.C13.unit_spec b
+  rw [ht] at a2
+  rw [hw] at a3 a4
+  rw [hh] at a4
+  refine ⟨?_, ?_⟩
+  · have := a2.trans b2.symm
+    revert this
+    cases (detectUnit a).term <;> cases (detectUnit b).term <;> simp [Termination.code]
+  · cases hw' : (specUnit b).wellFormed with
+    | true =>
+      rw [(a4 hw').1, (b4 hw').1]
+    | false =>
+      have ha := a3.2 hw'
+      have hb := b3.2 hw'
+      rw [ha, hb]
 
 /-- what the scan looks at in a unit is determined by the specification of the unit -/
 theorem key_of_spec {a b : Bytes} (h : specUnit a = specUnit b) :
@@ -791,7 +859,84 @@ theorem getLast?_drop_ne {s : Bytes} {tot : Nat} {b : UInt8} (h : s.getLast? ≠
   · intro h0; cases h0
   · exact h
 
-theorem scanFrom_stable (s y : Bytes) (hq : NoQuotes (s ++ y)) (hlast : s.getLast? ≠ some 13) (k : Nat) (hk : 0 < k)
+/-- a unit whose terminator is a CR at the very end of `w` -/
+theorem unit_cr_end (w : Bytes) (hr : w.drop (uData w).1 = [13]) :
+    (specUnit w).term = .nl ∧ (specUnit w).consumed = w.length := by
+  have hlen : (uData w).1 + 1 = w.length := by
+    have := congrArg List.length hr
+    rw [List.length_drop] at this
+    simp at this
+    omega
+  have n2 : specToken .nl [13] = some ⟨1, .nl, 0, 1⟩ := by decide
+  rw [specUnit_eq w, hr, n2]
+  exact ⟨rfl, hlen⟩
+
+/-- a terminator token that reaches the end of the input and ends in CR is a lone CR -/
+theorem nl_all {r : Bytes} {e : Expect} (he : specToken .nl r = some e) (hl : e.consumed = r.length)
+    (h13 : r.getLast? = some 13) : r = [13] := by
+  cases r with
+  | nil => simp at h13
+  | cons b t =>
+    by_cases hb : b = 10
+    · subst hb
+      simp only [specToken, newline_lf] at he
+      simp at he
+      rw [← he] at hl
+      simp at hl
+      subst hl
+      simp at h13
+    · by_cases hc : b = 13
+      · subst hc
+        cases t with
+        | nil => rfl
+        | cons b' t' =>
+          by_cases hb' : b' = 10
+          · subst hb'
+            simp only [specToken, newline_crlf] at he
+            simp at he
+            rw [← he] at hl
+            simp at hl
+            subst hl
+            simp at h13
+          · simp only [specToken, newline_cr _ _ hb'] at he
+            simp at he
+            rw [← he] at hl
+            simp at hl
+      · simp only [specToken] at he
+        rw [newline_none (b :: t) (by simpa using hb) (by simpa using hc)] at he
+        cases he
+
+theorem getLast?_drop_of_ne {w : Bytes} {n : Nat} (h : w.drop n ≠ []) : (w.drop n).getLast? = w.getLast? := by
+  rw [List.getLast?_drop]
+  split
+  · rename_i hle
+    exact absurd (List.drop_of_length_le hle) h
+  · rfl
+
+/-- a unit that ends in a terminator and takes the whole input, which ends in CR: the terminator is that CR -/
+theorem unit_nl_end (w : Bytes) (ht : (specUnit w).term = .nl) (hc : (specUnit w).consumed = w.length)
+    (h13 : w.getLast? = some 13) : w.drop (uData w).1 = [13] := by
+  rw [specUnit_eq] at ht hc
+  split at ht
+  · rename_i e he
+    rw [he] at hc
+    dsimp only at hc
+    have hpos := nl_consumed_pos he
+    have hne : w.drop (uData w).1 ≠ [] := by
+      intro h0
+      have := congrArg List.length h0
+      rw [List.length_drop] at this
+      simp at this
+      omega
+    refine nl_all he ?_ (by rw [getLast?_drop_of_ne hne]; exact h13)
+    rw [List.length_drop]; omega
+  · rename_i he
+    split at ht
+    · cases ht
+    · split at ht <;> cases ht
+
+theorem scanFrom_stable (s y : Bytes) (hq : NoQuotes (s ++ y)) (k : Nat)
+    (hx : k < s.length ∨ s.getLast? ≠ some 13 ∨ y.head? ≠ some 10) (hk : 0 < k)
     (hJ : NLat s (k - 1)) : ∀ (fuel tot f : Nat), scanFrom fuel s tot = some (k, f) →
     scanFrom fuel (s ++ y) tot = some (k, f) := by
   have hJl := hJ.lt
@@ -804,20 +949,33 @@ theorem scanFrom_stable (s y : Bytes) (hq : NoQuotes (s ++ y)) (hlast : s.getLas
     rw [scanFrom_succ] at h ⊢
     obtain ⟨v1, v2⟩ := drop_view s y (k - 1) tot hJ (by omega)
     have hq' : NoQuotes (s.drop tot ++ y) := by rw [← v1]; exact noQuotes_drop hq _
-    have hcr' : (s.drop tot).getLast? ≠ some 13 := getLast?_drop_ne hlast
     obtain ⟨a1, a2, a3, _⟩ := Props.C13.unit_spec (s.drop tot)
     have hstab : (specUnit (s.drop tot)).consumed ≤ k - 1 - tot + 1 →
+        ((s.drop tot).drop (uData (s.drop tot)).1 ≠ [13] ∨ y.head? ≠ some 10) →
         ((specUnit (s.drop tot)).term ≠ .none ∨ (specUnit (s.drop tot)).wellFormed = false) →
         (detectUnit (s.drop tot ++ y)).consumed = (detectUnit (s.drop tot)).consumed ∧
         (detectUnit (s.drop tot ++ y)).term = (detectUnit (s.drop tot)).term ∧
         ((detectUnit (s.drop tot ++ y)).header.type == .unknown) = ((detectUnit (s.drop tot)).header.type == .unknown) :=
-      fun h1 h2 => key_of_spec (specUnit_stable _ y _ v2 hq' hcr' h1 h2)
+      fun h1 h0 h2 => key_of_spec (specUnit_stable _ y _ v2 hq' h0 h1 h2)
     rw [v1]
     split at h
     · rename_i hnl
       simp only [Option.some.injEq, Prod.mk.injEq] at h
       have hnl' : (detectUnit (s.drop tot)).term = .nl := by simpa using hnl
-      obtain ⟨k1, k2, k3⟩ := hstab (by rw [← a1]; omega)
+      have h0 : (s.drop tot).drop (uData (s.drop tot)).1 ≠ [13] ∨ y.head? ≠ some 10 := by
+        rcases hx with hx | hx | hx
+        · left
+          intro hr
+          have := (unit_cr_end _ hr).2
+          rw [← a1, List.length_drop] at this
+          omega
+        · left
+          intro hr
+          apply getLast?_drop_ne (tot := tot) hx
+          rw [← List.take_append_drop (uData (s.drop tot)).1 (s.drop tot), hr]
+          simp
+        · right; exact hx
+      obtain ⟨k1, k2, k3⟩ := hstab (by rw [← a1]; omega) h0
         (Or.inl (fun hn => by rw [(term_of_code a2).1.1 hnl'] at hn; cases hn))
       rw [k1, k2, if_pos hnl]
       simp only [Option.some.injEq, Prod.mk.injEq]
@@ -839,7 +997,77 @@ theorem scanFrom_stable (s y : Bytes) (hq : NoQuotes (s ++ y)) (hlast : s.getLas
               have := wf_none_all _ hw hn
               rw [← a1, List.length_drop] at this
               omega
-          obtain ⟨k1, k2, k3⟩ := hstab (by rw [← a1]; omega) hterm
+          have h0 : (s.drop tot).drop (uData (s.drop tot)).1 ≠ [13] ∨ y.head? ≠ some 10 := by
+            left
+            intro hr
+            have := (unit_cr_end _ hr).2
+            rw [← a1, List.length_drop] at this
+            omega
+          obtain ⟨k1, k2, k3⟩ := hstab (by rw [← a1]; omega) h0 hterm
+          rw [k1, k2, k3, if_neg hnl, if_neg hstop, if_neg (by rw [List.length_append]; omega)]
+          exact ih _ f h
+
+/-- the exception: the message found is all of `s`, it ends in CR, and a line feed follows: the message
+found in `s ++ LF ++ y` is one byte longer -/
+theorem scanFrom_crlf (s y : Bytes) (hq : NoQuotes (s ++ 10 :: y)) (h13 : s.getLast? = some 13) :
+    ∀ (fuel tot f : Nat), scanFrom fuel s tot = some (s.length, f) →
+    scanFrom fuel (s ++ 10 :: y) tot = some (s.length + 1, f) := by
+  have hne : s ≠ [] := by intro h0; subst h0; simp at h13
+  have hlen : 0 < s.length := List.length_pos_iff.2 hne
+  have hJ : NLat s (s.length - 1) := by
+    right
+    rw [List.getLast?_eq_getElem?] at h13
+    exact h13
+  intro fuel
+  induction fuel with
+  | zero => intro tot f h; simp [scanFrom] at h
+  | succ fuel ih =>
+    intro tot f h
+    obtain ⟨g1, g2, _, _⟩ := scanFrom_some _ _ _ _ _ h
+    rw [scanFrom_succ] at h ⊢
+    obtain ⟨v1, v2⟩ := drop_view s (10 :: y) (s.length - 1) tot hJ (by omega)
+    have hq' : NoQuotes (s.drop tot ++ 10 :: y) := by rw [← v1]; exact noQuotes_drop hq _
+    obtain ⟨a1, a2, a3, _⟩ := Props.C13.unit_spec (s.drop tot)
+    obtain ⟨b1, _⟩ := Props.C13.unit_spec (s.drop tot ++ 10 :: y)
+    rw [v1]
+    split at h
+    · rename_i hnl
+      simp only [Option.some.injEq, Prod.mk.injEq] at h
+      have hnl' : (detectUnit (s.drop tot)).term = .nl := by simpa using hnl
+      have hne' : s.drop tot ≠ [] := v2.ne_nil
+      have hr := unit_nl_end (s.drop tot) ((term_of_code a2).1.1 hnl')
+        (by rw [← a1, List.length_drop]; omega) (by rw [getLast?_drop_of_ne hne']; exact h13)
+      obtain ⟨c1, _, _, _⟩ := specUnit_crlf (s.drop tot) y hq' hr
+      obtain ⟨k2, _⟩ := key_of_fields (a := s.drop tot ++ 10 :: y) (b := s.drop tot)
+        (by rw [c1]) (by rw [c1]) (by rw [c1])
+      have k1 : (detectUnit (s.drop tot ++ 10 :: y)).consumed = (detectUnit (s.drop tot)).consumed + 1 := by
+        rw [b1, c1, a1]
+      rw [k1, k2, if_pos hnl]
+      simp only [Option.some.injEq, Prod.mk.injEq]
+      exact ⟨by omega, h.2⟩
+    · rename_i hnl
+      split at h
+      · cases h
+      · rename_i hstop
+        split at h
+        · cases h
+        · rename_i hlt
+          have hterm : (specUnit (s.drop tot)).term ≠ .none ∨ (specUnit (s.drop tot)).wellFormed = false := by
+            cases hw : (specUnit (s.drop tot)).wellFormed with
+            | false => exact Or.inr rfl
+            | true =>
+              left
+              intro hn
+              have := wf_none_all _ hw hn
+              rw [← a1, List.length_drop] at this
+              omega
+          have h0 : (s.drop tot).drop (uData (s.drop tot)).1 ≠ [13] ∨ (10 :: y).head? ≠ some 10 := by
+            left
+            intro hr
+            have := (unit_cr_end _ hr).2
+            rw [← a1, List.length_drop] at this
+            omega
+          obtain ⟨k1, k2, k3⟩ := key_of_spec (specUnit_stable _ (10 :: y) _ v2 hq' h0 (by rw [← a1]; omega) hterm)
           rw [k1, k2, k3, if_neg hnl, if_neg hstop, if_neg (by rw [List.length_append]; omega)]
           exact ih _ f h
 
@@ -874,7 +1102,7 @@ theorem scan_stable (s y : Bytes) (k : Nat) (hq : NoQuotes (s ++ y)) (hlast : s.
     (hs : scan s = some k) : scan (s ++ y) = some k := by
   obtain ⟨f, hf⟩ := scan_exists ((s ++ y).length + 1) (by rw [List.length_append]; omega) hs
   obtain ⟨h1, h2⟩ := scanFrom_nl s _ _ _ _ hf
-  have := scanFrom_stable s y hq hlast k h1 h2 _ _ _ hf
+  have := scanFrom_stable s y hq k (Or.inr (Or.inl hlast)) h1 h2 _ _ _ hf
   unfold scan
   rw [this]
   rfl
